@@ -122,8 +122,8 @@ CLAIMED = {
         "Every operation is also modelled statement by statement and tied to the real code after EVERY step of generated "
         "histories (1..12 operations, all single operations on every small index, forced reads in between), with the NumPy "
         "reference semantics evaluated on the real code as the oracle, operands byte-compared (and still well-formed) and "
-        "requested copies checked for shared storage. common_rowids, the re-encoding block of shift_common and append (up "
-        "to its final shift_common) are REGENERATED from the source on every run and proved equal to the modelled operations.",
+        "requested copies checked for shared storage. common_rowids, the re-encoding block of shift_common, append and filtered (up "
+        "to their final shift_common) are REGENERATED from the source on every run and proved equal to the modelled operations.",
         "Trusted: Lean kernel; the hand-written iindex model is tied to the code by correspondence for the operations that are not regenerated; NumPy primitives as list functions.",
         "Lean 4 proof (refinement per operation + induction over histories, partial) + per-step history correspondence + common_rowids, the re-encoding block of shift_common and append regenerated from the source (translator) and proved to be the modelled query / operations",
         "DESIGN.md §5 C06"),
@@ -132,7 +132,7 @@ CLAIMED = {
         "real result) proved sound, and a preservation theorem for EVERY operation of the property (construction by both "
         "strategies, copy, shift_common, append, filtered, update, reindexed, sliced, column_stack, collapsed, the entry-wise "
         "set updates), each under the operation's own precondition. validate(True), the re-encoding block of shift_common "
-        "and append are REGENERATED from the source and proved to be the modelled predicate / operations. The real code is "
+        "append and filtered are REGENERATED from the source and proved to be the modelled predicate / operations. The real code is "
         "checked after every step of every history (validate(True) + range/arity/non-emptiness/dtype conditions + "
         "abscissae/sparsity; operands the caller still holds included) and compared with the model.",
         "Trusted: Lean kernel; correspondence for the operations that are not regenerated; the axis restrictions of the model (one / two axes) are those of the code.",
